@@ -27,6 +27,7 @@ EXPLANATION = (
     "operands is handed the same members of each (`f(a.x, a.y, b.x, b.y)`, never `f(a.x, a.y, b.x, a.y)`); (D8) two `let`s of a binary merge that compute the same thing for the two "
     "operands (same shape once the operand is abstracted) are mirror images of each other — `chain(pad(a.additional))` for a, "
     "`chain(pad(b.additional))` for b."
+    " (D9) two closure parameters that are compared as positions come from `enumerate()` over the same sequence; D5 also reads a table of (type, predicate) rows, D2 also the `(Some, None)`/`(None, Some)` arms of paired options."
 )
 ASSUMPTIONS = ["the pairwise merge functions compute intersections (not decided)"]
 
